@@ -9,7 +9,7 @@
    decided by the bit-exact correspondence and the falsifier. *)
 From Coq Require Import ZArith List String Bool.
 From Hexital Require Import Base.Prelude Base.Num Inst.ZInst Model.Manager Model.Candle Model.Readings Model.Engine
-  Proofs.EngineProofs Proofs.CausalProofs Proofs.AnalysisProofs Proofs.ComposeProofs Proofs.PipelineProofs Proofs.ComposeHA Proofs.CausalMore Proofs.CausalWin Proofs.CompositeProofs Proofs.AtrCompose Model.Analysis.
+  Proofs.EngineProofs Proofs.CausalProofs Proofs.AnalysisProofs Proofs.ComposeProofs Proofs.PipelineProofs Proofs.ComposeHA Proofs.CausalMore Proofs.CausalWin Proofs.CompositeProofs Proofs.AtrCompose Proofs.FillCompose Proofs.FillEngine Proofs.FillHA Proofs.FillHAEngine Model.Analysis.
 Import ListNotations.
 Local Open Scope Z_scope.
 
@@ -197,10 +197,78 @@ Print Assumptions C01_atr_incremental_equals_batch.
 
 (* the premises are met by ordinary raw candles, and the conclusion is not vacuous: over Z,
    ATR(2) on four candles fed as 1 + 2 + 1 *)
+Definition c01_mk ts o h l c : cd (payload ZOps) := Build_cd ts (raw_payload ZOps (Build_ohlcv ZOps o h l c 10)).
+Definition c01_a1 := c01_mk 60 10 14 8 12. Definition c01_a2 := c01_mk 120 12 18 11 16.
+Definition c01_a3 := c01_mk 180 16 17 9 10. Definition c01_a4 := c01_mk 240 10 13 10 12.
+Definition c01_A : ind ZOps := top ZOps (K_ATR 2) "ATR_2" 4.
+Definition c01_atr_r : store ZOps :=
+  Eval vm_compute in (match calculate ZOps c01_A [c01_a1; c01_a2; c01_a3; c01_a4] with Ok r => r | Err _ => [] end).
 Example C01_atr_example :
-  let mk ts o h l c := Build_cd ts (raw_payload ZOps (Build_ohlcv ZOps o h l c 10)) in
-  let c1 := mk 60 10 14 8 12 in let c2 := mk 120 12 18 11 16 in let c3 := mk 180 16 17 9 10 in let c4 := mk 240 10 13 10 12 in
-  let A := top ZOps (K_ATR 2) "ATR_2" 4 in
-  exists r, calculate ZOps A [c1; c2; c3; c4] = Ok r /\ engine_chunks ZOps A [] [[c1]; [c2; c3]; [c4]] = Ok r /\
-            map (fun c => alist_get "ATR_2" (inds ZOps (p c))) r = [Some VNone; Some VNone; Some (@VNum ZOps 7); Some (@VNum ZOps 5)].
-Proof. cbn zeta. eexists. split; [vm_compute; reflexivity|]. split; vm_compute; reflexivity. Qed.
+  calculate ZOps c01_A [c01_a1; c01_a2; c01_a3; c01_a4] = Ok c01_atr_r /\
+  engine_chunks ZOps c01_A [] [[c01_a1]; [c01_a2; c01_a3]; [c01_a4]] = Ok c01_atr_r /\
+  map (fun c => alist_get "ATR_2" (inds ZOps (p c))) c01_atr_r = [Some VNone; Some VNone; Some (@VNum ZOps 7); Some (@VNum ZOps 5)].
+Proof.
+  split; [vm_cast_no_check (@eq_refl (res (store ZOps)) (Ok c01_atr_r))|].
+  split; [vm_cast_no_check (@eq_refl (res (store ZOps)) (Ok c01_atr_r))|reflexivity].
+Qed.
+
+(* ... with gap filling: D is the indicator's store after the raw stream xs - canonical readings
+   over the collapsed and filled series; appending ys re-collapses and re-fills D ++ ys and
+   calculates; the result is the batch result over the collapsed and filled whole stream
+   (closed buckets and the fill candles between them keep their readings, the open last bucket
+   is reset by the merge and recomputed, new fill candles are fresh), and the manager raises
+   exactly when the batch does *)
+Theorem C01_append_on_filled_timeframe :
+  forall (O : NumOps) (I : ind O) (calc : store O -> Z -> res (val O)),
+  i_subs O I = [] /\ i_managed O I = [] ->
+  (forall rec st i, calc_reading O rec I st i = (v <- calc st i ;; Ok (v, st))) ->
+  Causal O I calc ->
+  forall (tf : Z) (xs ys : list (cd (payload O))) (D : store O),
+  0 < tf -> sorted (payload O) (xs ++ ys) -> Forall (fresh O I) (xs ++ ys) ->
+  (exists F, cf (payload O) (Candle.merge O) (fillp O) tf xs = Ok F /\ canon O I calc F = Ok D) ->
+  match cf (payload O) (Candle.merge O) (fillp O) tf (xs ++ ys) with
+  | Ok G => exists M, cf (payload O) (Candle.merge O) (fillp O) tf (D ++ ys) = Ok M /\ calculate O I M = canon O I calc G
+  | Err e => cf (payload O) (Candle.merge O) (fillp O) tf (D ++ ys) = Err e
+  end.
+Proof. intros O I calc Hl Hp Hc tf xs ys D Htf Hs Hf HD. eapply append_on_filled_timeframe; eassumption. Qed.
+Print Assumptions C01_append_on_filled_timeframe.
+
+(* ... and with gap filling and Heikin-Ashi together (every manager option but the lifespan):
+   pipe3 = collapse, fill, convert from the resume index *)
+Theorem C01_append_on_filled_converted_timeframe :
+  forall (O : NumOps) (I : ind O) (calc : store O -> Z -> res (val O)),
+  i_subs O I = [] /\ i_managed O I = [] ->
+  (forall rec st i, calc_reading O rec I st i = (v <- calc st i ;; Ok (v, st))) ->
+  Causal O I calc ->
+  forall (tf : Z) (xs ys : list (cd (payload O))) (D : store O),
+  0 < tf -> sorted (payload O) (xs ++ ys) -> pristine O (xs ++ ys) ->
+  (exists F, cf (payload O) (Candle.merge O) (fillp O) tf xs = Ok F /\ canon O I calc (convert O F) = Ok D) ->
+  match cf (payload O) (Candle.merge O) (fillp O) tf (xs ++ ys) with
+  | Ok G => exists M, pipe3 O tf (D ++ ys) = Ok M /\ calculate O I M = canon O I calc (convert O G)
+  | Err e => pipe3 O tf (D ++ ys) = Err e
+  end.
+Proof. intros O I calc Hl Hp Hc tf xs ys D Htf Hs Hpr HD. eapply append_on_filled_converted_timeframe; eassumption. Qed.
+Print Assumptions C01_append_on_filled_converted_timeframe.
+
+(* the states the two theorems speak about exist: SMA(2) over a five-minute timeframe with gap
+   filling, four raw candles with a hole of two buckets; plain and under Heikin-Ashi *)
+Local Open Scope string_scope.
+Definition c01_I : ind ZOps := top ZOps (K_SMA 2 "close") "SMA_2" 4.
+Definition c01_c (ts c : Z) : cd (payload ZOps) := {| t := ts; p := raw_payload ZOps (Build_ohlcv ZOps c c c c 1) |}.
+Definition c01_xs := [c01_c 60 10; c01_c 120 11; c01_c 400 12; c01_c 1300 14].
+Definition c01_F : list (cd (payload ZOps)) :=
+  Eval vm_compute in (match cf (payload ZOps) (Candle.merge ZOps) (fillp ZOps) 300 c01_xs with Ok r => r | Err _ => [] end).
+Definition c01_D : store ZOps :=
+  Eval vm_compute in (match canon ZOps c01_I (pure_calc ZOps c01_I) c01_F with Ok r => r | Err _ => [] end).
+Definition c01_D2 : store ZOps :=
+  Eval vm_compute in (match canon ZOps c01_I (pure_calc ZOps c01_I) (convert ZOps c01_F) with Ok r => r | Err _ => [] end).
+Example C01_filled_timeframe_example :
+  (exists F, cf (payload ZOps) (Candle.merge ZOps) (fillp ZOps) 300 c01_xs = Ok F /\ canon ZOps c01_I (pure_calc ZOps c01_I) F = Ok c01_D) /\
+  (exists F, cf (payload ZOps) (Candle.merge ZOps) (fillp ZOps) 300 c01_xs = Ok F /\ canon ZOps c01_I (pure_calc ZOps c01_I) (convert ZOps F) = Ok c01_D2) /\
+  List.length c01_D = 5%nat /\
+  map (fun c => alist_get "SMA_2" (inds ZOps (p c))) c01_D2 = [Some (@VNone ZOps); Some (@VNum ZOps 11); Some (@VNum ZOps 12); Some (@VNum ZOps 12); Some (@VNum ZOps 13)].
+Proof.
+  split; [exists c01_F; split; [vm_cast_no_check (@eq_refl (res (store ZOps)) (Ok c01_F))|vm_cast_no_check (@eq_refl (res (store ZOps)) (Ok c01_D))]|].
+  split; [exists c01_F; split; [vm_cast_no_check (@eq_refl (res (store ZOps)) (Ok c01_F))|vm_cast_no_check (@eq_refl (res (store ZOps)) (Ok c01_D2))]|].
+  split; reflexivity.
+Qed.
